@@ -82,6 +82,17 @@ Theorem C07_observe_on_complete :
   forall ls, relay_complete 0 false ls (run_timed TObserveOn ls) = true.
 Proof. exact RelayCompleteLaws.observe_on_is_complete. Qed.
 
+(* ... and delay_subscription / subscribe_on: once the subscribing task has been polled at a moment
+   at which it is due, every notification of the input reaches the subscriber in the call that
+   brings it, until the input terminates or unsubscribe() returns *)
+Theorem C07_delay_subscription_complete :
+  forall d ls, pass_complete d ls (run_timed (TDelaySubscription d) ls) = true.
+Proof. exact RelayCompleteLaws.delay_subscription_is_complete. Qed.
+
+Theorem C07_subscribe_on_complete :
+  forall ls, pass_complete 0 ls (run_timed TSubscribeOn ls) = true.
+Proof. exact RelayCompleteLaws.subscribe_on_is_complete. Qed.
+
 (* the obligation is not vacuous: a run that loses the completion of an idle stream is rejected *)
 Example C07_complete_rejects_a_lost_completion :
   relay_complete 0 true [LSrc Done; LRun 0] [TMark 0; TMark 1] = false /\
@@ -126,6 +137,8 @@ Check C07_delay : forall d ls, relay_ok d true ls (run_timed (TDelay d) ls) = tr
 Check C07_observe_on : forall ls, relay_ok 0 false ls (run_timed TObserveOn ls) = true.
 Check C07_delay_complete : forall d ls, relay_complete d true ls (run_timed (TDelay d) ls) = true.
 Check C07_observe_on_complete : forall ls, relay_complete 0 false ls (run_timed TObserveOn ls) = true.
+Check C07_delay_subscription_complete : forall d ls, pass_complete d ls (run_timed (TDelaySubscription d) ls) = true.
+Check C07_subscribe_on_complete : forall ls, pass_complete 0 ls (run_timed TSubscribeOn ls) = true.
 Check C07_delay_subscription : forall d ls, passthru_ok d ls (run_timed (TDelaySubscription d) ls) = true.
 Check C07_subscribe_on : forall ls, passthru_ok 0 ls (run_timed TSubscribeOn ls) = true.
 Check C07_delay_order : forall d ls,
@@ -151,6 +164,8 @@ Print Assumptions C07_delay.
 Print Assumptions C07_observe_on.
 Print Assumptions C07_delay_complete.
 Print Assumptions C07_observe_on_complete.
+Print Assumptions C07_delay_subscription_complete.
+Print Assumptions C07_subscribe_on_complete.
 Print Assumptions C07_delay_subscription.
 Print Assumptions C07_subscribe_on.
 Print Assumptions C07_delay_order.
@@ -161,6 +176,11 @@ Print Assumptions C07_delay_error_prefix.
 Print Assumptions C07_never_early.
 Print Assumptions C07_at_most_once.
 Print Assumptions C07_not_after_unsubscribe.
+
+Example C07_pass_complete_rejects_a_swallowed_item :
+  pass_complete 3 [LRun 0; LAdv 3; LRun 0; LSrc (Next (VZ 7))] [TMark 0; TMark 1; TMark 2; TMark 3] = false /\
+  pass_complete 3 [LRun 0; LAdv 3; LRun 0; LSrc (Next (VZ 7))] [TMark 0; TMark 1; TMark 2; TMark 3; TOut 3 (Next (VZ 7))] = true.
+Proof. split; vm_compute; reflexivity. Qed.
 
 Example C07_example :
   trun (fun _ => false) 3 (spawn (BOnce 0) (Some 5)) [TPoll 0; TPoll 4; TPoll 1; TPoll 2]
